@@ -205,6 +205,15 @@ def plan(tier, seed):
             fam2 = dict(fam)
             fam2['shape'] = [4, 2, 2]
             P.append({'fam': fam2, 'changes': {k: v for k, v in ADDON_GAIN.items() if k != 'Construction Years'}, 'tag': 'addon-cy2'})
+    # fracture-geometry and reservoir-volume branches of the reservoir block (models 1 and 2 print them)
+    for r in (1, 2):
+        fam = {'econ': 1, 'enduse': 1 if r == 1 else 2, 'plant': 1 if r == 1 else 9, 'res': r, 'shape': [3, 2, 1]}
+        for ch in ({'Fracture Shape': '1', 'Fracture Area': '500000'}, {'Fracture Shape': '2', 'Fracture Height': '700'}, {'Fracture Shape': '4', 'Fracture Height': '600', 'Fracture Width': '450'},
+                   {'Reservoir Volume Option': '1', 'Fracture Separation': '45', 'Number of Fractures': '12', 'Reservoir Volume': None},
+                   {'Reservoir Volume Option': '2', 'Fracture Separation': '45', 'Reservoir Volume': '2e8', 'Number of Fractures': None},
+                   {'Reservoir Volume Option': '3', 'Reservoir Volume': '2e8', 'Number of Fractures': '12'},
+                   {'Reservoir Volume Option': '4', 'Reservoir Volume': '2e8'}):
+            P.append({'fam': fam, 'changes': dict(ch)})
     # closed-loop (SBT) runs print through the standard writer with their own well-field lines
     for fam in F.sbt_grid(shapes=((6, 2, 1),) if tier == 'quick' else ((6, 2, 1), (3, 4, 2))):
         P.append({'fam': fam, 'changes': {}})
